@@ -253,10 +253,22 @@ class FactorTerm(Term):
 
     def __new__(cls, name, level):
         # Names or levels can be byte strings
-        new = Term.__new__(cls, f"{_to_str(name)}_{_to_str(level)}")
+        # Not through sympy's symbol cache: that cache is keyed on the printed
+        # name alone, so FactorTerm('f', 1) and FactorTerm('f', '1') (or
+        # ('a', 'b_c') and ('a_b', 'c')) would be one object carrying the
+        # level of whichever was created last.
+        new = sympy.Symbol.__xnew__(cls, f"{_to_str(name)}_{_to_str(level)}")
         new.level = level
         new.factor_name = name
         return new
+
+    def _hashable_content(self):
+        # The factor and the level (and whether the level is a string) are
+        # part of the identity of the term, not only its printed name.
+        return Term._hashable_content(self) + (
+            _to_str(self.factor_name),
+            isinstance(self.level, (str, bytes)),
+            _to_str(self.level))
 
     def __mul__(self, other):
 
